@@ -58,7 +58,7 @@ func unmarshalVia(name string, doc []byte, fn unmarshalFn) (val string, errText 
 	} else {
 		errText = "OK"
 	}
-	return fmt.Sprintf("%#v", v), errText, panicked
+	return dumpValue(v), errText, panicked
 }
 
 // C27: format detection and version headers are handled consistently.
